@@ -88,6 +88,16 @@ def check(prop, modname, tier, seed):
                 rep.known('%s [%s]' % (f['what'], f['id']))
     if evals == 0 and not rep.broken:
         rep.broken.append('zero cases enumerated')
+    la = None
+    if hasattr(mod, 'level_a'):
+        la = mod.level_a(tier)
+        for (n, why) in la['failed']:
+            path = common.replay_path(prop, n)
+            common.write_json(path, {'property': prop, 'obligation': n, 'solver': why,
+                                     'note': 'Level-A obligation (pyvc) of this property failed; no failing input was searched for'})
+            rep.violation(n, path, False)
+        for u in la['unsupported']:
+            rep.undecided.append('Level-A part outside the supported subset: ' + u)
     ev = {'property_id': prop, 'tier': tier, 'seed': seed, 'level': 'exploration',
           'coverage': {'evaluations': evals, 'distinct_nontrivial': distinct, 'rule': mod.RULE, 'samples': samples,
                        'exhaustive': True, 'scope': mod.SCOPE[tier], 'functions_under_contract': mod.CONTRACTS,
@@ -97,4 +107,11 @@ def check(prop, modname, tier, seed):
                                       'real functions, evaluated on every case of the stated scope; ' + mod.SCOPE[tier],
                        'checker_cmd': './check %s --tier %s' % (prop, tier)},
           'assumptions': mod.ASSUMPTIONS}
+    if la is not None:
+        ev['coverage'].update({'obligations': la['obligations'], 'discharged': la['discharged'],
+                               'level_a_functions_under_contract': la['functions'], 'solver_ms_total': la['ms'],
+                               'trusted_base': common.TRUSTED_BASE_A,
+                               'level_a_note': 'the obligations counted here are the Level-A (pyvc + z3) part of this property; the '
+                                               'bounded part is counted in evaluations/distinct_nontrivial; the property as a whole is '
+                                               'reported at the weaker level (exploration)'})
     return rep.finish(ev)
